@@ -152,6 +152,12 @@ def run_graphs(chk, drv, prepared):
         real = real_outcome(pr)
         tag = rep[0] if isinstance(rep, list) else str(rep)
         chk.count("graph_outcome_" + real[0])
+        if tag == "graph" and len(rep) >= 7:
+            # hypotheses of `lowerable_iff_generateIr_ok` (properSums, noSkip) and of `generateIr_store_targets`
+            # (outLeavesOf, proved for best_algorithm's graphs) on the graph the model chose
+            chk.count("graph_properSums_" + str(rep[4]))
+            chk.count("graph_noSkip_" + str(rep[5]))
+            chk.count("graph_outLeavesOfOutput_" + str(rep[6]))
         if real[0] == "graph":
             good = tag == "graph" and sx(rep[1]) == real[1] and (rep[3] == "true") == real[2]
             if not real[2]:
